@@ -906,6 +906,9 @@ func (e *Engine) unop(st *State, in *ssa.UnOp, x Value) Value {
 		return Not(asTerm(x))
 	case token.SUB:
 		if f, ok := x.(FloatVal); ok {
+			if f.I != nil {
+				unsupported("arithmetic on a symbolic float")
+			}
 			return FloatVal{F: -f.F}
 		}
 		return e.arith(st, "bvneg", asTerm(x), nil)
@@ -921,7 +924,14 @@ func (e *Engine) valuesEq(a, b Value) *Term {
 	case *Term:
 		return Eq(x, asTerm(b))
 	case FloatVal:
-		return ConstBool(x.F == b.(FloatVal).F)
+		y := b.(FloatVal)
+		if x.I != nil || y.I != nil {
+			if x.I != nil && y.I != nil {
+				return Eq(x.I, y.I)
+			}
+			unsupported("comparison of a symbolic float with a concrete one")
+		}
+		return ConstBool(x.F == y.F)
 	case StringVal:
 		y := b.(StringVal)
 		if x.Atom != nil || y.Atom != nil {
@@ -1043,15 +1053,18 @@ func (e *Engine) binop(st *State, op token.Token, a, b Value, typ types.Type) Va
 	}
 	if fa, ok := a.(FloatVal); ok {
 		fb := b.(FloatVal)
+		if fa.I != nil || fb.I != nil {
+			unsupported("arithmetic/ordering on a symbolic float")
+		}
 		switch op {
 		case token.ADD:
-			return FloatVal{fa.F + fb.F}
+			return FloatVal{F: fa.F + fb.F}
 		case token.SUB:
-			return FloatVal{fa.F - fb.F}
+			return FloatVal{F: fa.F - fb.F}
 		case token.MUL:
-			return FloatVal{fa.F * fb.F}
+			return FloatVal{F: fa.F * fb.F}
 		case token.QUO:
-			return FloatVal{fa.F / fb.F}
+			return FloatVal{F: fa.F / fb.F}
 		case token.LSS:
 			return ConstBool(fa.F < fb.F)
 		case token.LEQ:
@@ -1131,15 +1144,19 @@ func (e *Engine) convert(st *State, v Value, from, to types.Type) Value {
 			return Resize(asTerm(v), wt, sf)
 		}
 		if f, ok2 := v.(FloatVal); ok2 {
+			if f.I != nil {
+				return Resize(f.I, wt, true) // exact: the float is the image of this integer
+			}
 			return ConstBV(uint64(int64(f.F)), wt)
 		}
 	}
 	if isFloat(to) {
 		if t, ok := v.(*Term); ok {
-			if !t.IsConst() {
-				unsupported("symbolic int to float")
-			}
 			_, sf, _ := intWidth(from)
+			if !t.IsConst() {
+				// exact for |n| < 2^53; the harness states the range of the integer
+				return FloatVal{I: Resize(t, 64, sf)}
+			}
 			if sf {
 				return FloatVal{F: float64(t.Signed())}
 			}
